@@ -507,7 +507,7 @@ def wrap_path(path, leaf_json, extras=False):
     return s
 
 
-def corpus(name, r):
+def corpus(name, r, nrand=40):
     """[(class label | None, status, headers, body bytes, expected body text | None=unspecified)]; bodies with the same class label
     must transform to identical bytes"""
     spec = SPEC[name]
@@ -555,7 +555,7 @@ def corpus(name, r):
         out.append((('empty',), stt, H1, good, ''))
     # random mutations of a good payload (truncations, byte flips): whatever they are, the frame must hold
     base = (wrap_path(spec[1], '840000', extras=True) if spec[0] == 'json' else '840000').encode()
-    for _ in range(40):
+    for _ in range(nrand):
         b = bytearray(base)
         k = r.randint(0, 3)
         if k == 0 and len(b) > 1:
@@ -572,11 +572,11 @@ def corpus(name, r):
     return out
 
 
-def native_corpus(rep, cands, r):
+def native_corpus(rep, cands, r, nrand=40):
     import re
     n = 0
     for name in sorted(SPEC):
-        cp = corpus(name, r)
+        cp = corpus(name, r, nrand)
         ops = [dict(op='transform', name=name, status=s, headers=h, body_hex=b.hex()) for (_, s, h, b, _) in cp]
         res = C.run_native([dict(ops=ops)], tag='c18')[0]
         classes = {}
@@ -730,7 +730,7 @@ def main():
     cands = Cands()
     for part in parallel(sorted(SPEC), worker):
         merge_partial(rep, cands, part)
-    native_corpus(rep, cands, C.rng())
+    native_corpus(rep, cands, C.rng(), 40 if tier == 'quick' else 1000)
     settle(rep, PROP, cands, confirm, H.load_known(PROP), cap=3, describe=lambda d: str(d.get('problems'))[:400])
     return rep.finish()
 
